@@ -17,6 +17,8 @@ CHECKS = {
     "C04": rust("model_checking", [("std", "c04", [])], [("std", "c04", []), ("nostd", "c04", [])]),
     "C07": rust("model_checking", [("std", "c07", [])], [("std", "c07", []), ("nostd", "c07", [])]),
     "C10": rust("model_checking", [("std", "c10", [])]),
+    "C09": rust("model_checking", [("std", "c09", [])]),
+    "C08": rust("model_checking", [("std", "c08", [])], [("std", "c08", []), ("nostd", "c08", [])]),
     "C03": rust("model_checking", [("std", "c03", [])], [("std", "c03", []), ("nostd", "c03", [])]),
 }
 
